@@ -273,6 +273,9 @@ func (x *Exec) vxIntrinsic(fn *ssa.Function, short string, args []Value, g *Term
 		// vxUFI16(name, a, b int, g float64) int16: uninterpreted function application
 		nm := x.knownStr(args[0], short)
 		return c.Apply("uf."+nm, BV(16), args[1].(*Term), args[2].(*Term), args[3].(*Term))
+	case "vxUFBool":
+		nm := x.knownStr(args[0], short)
+		return c.Apply("uf."+nm, BoolSort, args[1].(*Term))
 	case "vxPrefer":
 		// soft constraint used only to pick a replay-friendly counterexample (never to decide)
 		x.prefers = append(x.prefers, c.Implies(g, args[0].(*Term)))
@@ -280,6 +283,11 @@ func (x *Exec) vxIntrinsic(fn *ssa.Function, short string, args []Value, g *Term
 	case "vxAssert":
 		id := x.knownStr(args[1], short)
 		x.addOblig("assert", id, c.And(g, c.Not(args[0].(*Term))), site)
+		return nil
+	case "vxAssertBatched":
+		// like vxAssert, but many of them are decided by one solver query (split when satisfiable)
+		id := x.knownStr(args[1], short)
+		x.addOblig("bassert", id, c.And(g, c.Not(args[0].(*Term))), site)
 		return nil
 	case "vxReach":
 		x.addOblig("reach", x.knownStr(args[0], short), g, site)
@@ -303,6 +311,10 @@ func (x *Exec) vxIntrinsic(fn *ssa.Function, short string, args []Value, g *Term
 			x.fail("vxStub: second argument must be a function value (got %T)", iv.V)
 		}
 		x.stubs[nm] = fv
+		if x.everStubbed == nil {
+			x.everStubbed = map[string]bool{}
+		}
+		x.everStubbed[nm] = true
 		return nil
 	case "vxUnstub":
 		delete(x.stubs, x.knownStr(args[0], short))
